@@ -109,16 +109,17 @@ class Value:
 
         def update(o, v):
             if isinstance(v, Value):
-                o.errors = v.errors
-                o.result = v.result
+                # (what this value has got from other handlers stands)
+                o.errors = o.errors or v.errors
+                o.result = o.result or v.result
             elif v is not None:
                 o.result = True
 
                 o.inform()
 
             if o.parent is not o:
-                o.parent.errors = o.errors
-                o.parent.result = o.result
+                o.parent.errors = o.parent.errors or o.errors
+                o.parent.result = o.parent.result or o.result
                 update(o.parent, v)
 
         update(self, value)
